@@ -9,6 +9,7 @@ distinct observations the real `clientProcessRunner` produced on it.
             function the theorems are about) under the scripted client.
 -/
 import ConfModel.Driver.Common
+import ConfModel.Driver.OSCmd
 import ConfModel.Spec.ClientRunner
 import Std.Data.HashSet
 namespace ConfModel.Driver.C10
@@ -195,6 +196,7 @@ def cleanScript (n : Nat) (names : List Nat) (acts : List Act) : Bool :=
 
 def handle : Handler := fun op inp impl =>
   match op with
+  | "oscmd" => ConfModel.Driver.OSCmd.judgeClient inp impl
   | "run" =>
     let namesL := natList (field inp "names")
     let n := namesL.length
